@@ -24,6 +24,10 @@ def op_line(slot, op):
         return "node %d %d" % (slot, op[1])
     if k == "attr":
         return "attr %d %d %d" % (slot, op[1], op[2])
+    if k == "clear":
+        return "clear %d" % slot
+    if k == "clearedges":
+        return "clearedges %d" % slot
     raise ValueError(op)
 
 
@@ -38,6 +42,21 @@ def times_of(ops):
             if op[2] is not None:
                 ts.append(op[2])
     return ts
+
+
+def nodes_of(ops):
+    out = set()
+    for op in ops:
+        k = op[0]
+        if k == "add":
+            out.update([op[1], op[2]])
+        elif k in ("node", "attr"):
+            out.add(op[1])
+        elif k == "addfrom":
+            out.update(y for p in op[1] for y in p)
+        elif k in ("path", "star", "cycle", "fpath", "fstar", "fcycle"):
+            out.update(op[1])
+    return sorted(out)
 
 
 def window(ops, pad=2):
@@ -78,6 +97,18 @@ def multi_pair_ops(tmax=3):
     return out
 
 
+def exhaustive_reciprocal(n=3, tmax=2):
+    """two reciprocal arcs (one pair on DynGraph), spans that close at shared instants"""
+    ops = []
+    for (u, v) in [(1, 2), (2, 1)]:
+        for t in range(0, tmax + 1):
+            for e in (None, t + 1, t + 2):
+                ops.append(["add", u, v, t, e])
+    for L in range(2, n + 1):
+        for seq in itertools.product(ops, repeat=L):
+            yield [list(o) for o in seq]
+
+
 def exhaustive_multi_pair(n, tmax=3):
     ops = multi_pair_ops(tmax)
     for L in range(1, n + 1):
@@ -87,7 +118,7 @@ def exhaustive_multi_pair(n, tmax=3):
 
 # ------------------------------------------------------------------ seeded random
 def random_history(rng, n_ops=None, n_nodes=None, tlo=-3, thi=12, p_reject=0.08, p_none=0.02, p_empty=0.03,
-                   p_bulk=0.15, p_node=0.05, loops=True, monotone_bias=0.6):
+                   p_bulk=0.15, p_node=0.05, loops=True, monotone_bias=0.6, p_clear=0.02):
     n_nodes = n_nodes or rng.choice([2, 3, 3, 4, 5, 6])
     n_ops = n_ops or rng.choice([1, 2, 3, 4, 5, 6, 8, 10, 12, 16, 24])
     nodes = list(range(0, n_nodes))      # 0 is a falsy node label
@@ -96,6 +127,11 @@ def random_history(rng, n_ops=None, n_nodes=None, tlo=-3, thi=12, p_reject=0.08,
     clock = rng.randint(tlo, tlo + 4)
     for _ in range(n_ops):
         r = rng.random()
+        if rng.random() < p_clear:
+            ops.append([rng.choice(["clear", "clearedges"])])
+            last = {}
+            clock = rng.randint(tlo, tlo + 4)
+            continue
         if r < p_node:
             n = rng.choice(nodes + [n_nodes])
             ops.append(["node", n])
@@ -169,4 +205,11 @@ def corpus_histories():
         [["cycle", [], 1]], [["star", [], 1]], [["fstar", [], 1]], [["path", [], 1]], [["fcycle", [], 1]],
         [A(3, 1, 4, 6)], [A(2, 2, 3, 4)],
         [A(1, 2, 0), A(1, 2, 1), A(1, 2, 2), A(2, 3, 1, 4), A(3, 3, 2)],
+        # long histories: a pair with 20 separated runs (thresholds such as "more than 8 / 16 runs"), another pair interleaved
+        [A(1, 2, 5 * i, 5 * i + 2) for i in range(20)],
+        [x for i in range(18) for x in ([A(2, 1, 4 * i, 4 * i + 2)] + ([A(3, 1, 4 * i + 1)] if i % 3 == 0 else []))],
+        # instants first inserted out of chronological order across pairs
+        [A(5, 6, 10, 13), A(7, 8, 2, 4), A(5, 6, 14), A(7, 8, 6, 8)],
+        # reciprocal directed arcs closing at the same instant, one of them prolonged
+        [A(1, 2, 0, 3), A(2, 1, 1, 3), A(1, 2, 3, 5)], [A(2, 1, 0, 2), A(1, 2, 0, 2), A(2, 1, 2, 4), A(1, 2, 2)],
     ]
